@@ -14,6 +14,14 @@ use crate::{
 pub struct Error(pub(crate) Message);
 
 impl Error {
+    #[doc(hidden)]
+    #[must_use]
+    /// Failure of a nested command, including `--help` output, is the final output of the
+    /// whole parser, used by [`construct!`](crate::construct!), not a part of the public API
+    pub fn is_final(&self) -> bool {
+        matches!(self.0, Message::ParseFailure(_))
+    }
+
     pub(crate) fn combine_with(self, other: Self) -> Self {
         Error(self.0.combine_with(other.0))
     }
